@@ -275,6 +275,15 @@ def handling_sig(w, lf, _seen=None):
                         continue
                     for o in prog.resolve_lifted(b, pl.local, norm_path(pl), OKFLOW, at=bb.i):
                         if o.kind == "call" and o.body is b and o.blk == blk.i and o.path in ((), (("await",),)):
+                            # `match r { Ok(v) => v, Err(e) => return Err(e) }` is `r?` written out: an Err arm from which only
+                            # failure returns are reachable tolerates nothing
+                            tsw = bb.term
+                            if cls == "propagated" and tsw.k == "switch" and tsw.discr.place is not None and tsw.discr.place.local == st.place.local \
+                                    and ty.lstrip("&").startswith("std::result::Result<"):
+                                from .c01 import _only_fails
+                                err_t = switch_target(tsw, VIDX["Err"])
+                                if err_t is not None and _only_fails(prog, b, err_t):
+                                    continue
                             cls = "matched" if cls == "propagated" else "matched-and-dropped"
             tt = bb.term
             if tt.k == "call" and tt.callee is not None and tt.callee.path in (
